@@ -70,7 +70,8 @@ Fixpoint quiesce_amb (fuel : nat) (vr : variant) (iv : Z) (s : st) (amb moved : 
 
 Definition env_event (n : Z) (o : op) : ev :=
   match o with
-  | OSub p => SubscribeCall n p
+  | OSub p => SubscribeCall n p false
+  | OSubDone p => SubscribeCall n p true
   | OBatch k => Batch k n
   | OAdv d | OAdvBatch d _ => Advance d
   | ORead i => Want (Z.to_nat i)
@@ -144,6 +145,12 @@ Definition env_step (vr : variant) (iv : Z) (s : st) (n : Z) (o : op) : option s
               | CNone => step vr iv s CloseCall
               | _ => step vr iv s (Close2Call n)
               end
+  (* the context of subscriber i ends: i may still be waiting for the lock inside Subscribe (then it
+     is the (i - number of registered ones)-th waiting call, calls being served in order) *)
+  | OCancel i =>
+      let k := Z.to_nat i in
+      if (k <? length (subs s))%nat then step vr iv s (Cancel k)
+      else step vr iv s (CancelPending (k - length (subs s)))
   | _ => step vr iv s (env_event n o)
   end.
 
